@@ -5,63 +5,70 @@
        thread; Sig_Recv, Flag_Set, Wake_Connect on the thread that called run) and Run_Return,
      - what its own clients and route handlers do and see (Cli_*, H_Read, H_Finish),
      - its observations of the port (Obs_Closed: no LISTEN socket; Rebind(v)) and the final End,
-   each under one mutex, in one sequence.  TLC checks that the sequence is a behaviour of Shutdown.tla:
+   each under one mutex, in one sequence per scenario.  The file holds many scenarios (a Reset record starts
+   each one).  EVERY SCENARIO IS AN INDEPENDENT INITIAL STATE: TLC explores, per scenario, the ways the log can
+   be explained as a behaviour of Shutdown.tla and prints <<"ACC", sc>> when one explanation consumes the
+   whole log.  The driver subtracts the accepted scenarios from the scenarios in the file; an inexplicable log
+   cannot disturb the validation of the others.
 
    * every record is mapped to the action of Shutdown with the logged arguments bound;
    * steps of the code without a hook behind them are composed as silent actions: the pool / handler
-     steps Worker_Take, Worker_Disc, H_Write, H_Eof are taken eagerly (they only ever enable later
-     events, so taking them as early as possible loses no behaviour), Closure_Drop and tokio's
-     Loop_Exit are taken at any point;
+     steps Worker_Take, Worker_Disc, H_Write, H_Eof are taken eagerly and deterministically (they only ever
+     enable later events, so taking them as early as possible loses no behaviour); Closure_Drop and tokio's
+     Loop_Exit happen once per scenario, at any point;
    * a hook reports an operation AFTER it happened (an atomic store, a connect, an accept), so another
-     thread may log a consequence first.  The action of a record may therefore be executed early: at any
-     point after the previous record of the same thread has been consumed (set E = records executed
-     early; when the log reaches them they are skipped).
-   * Cli_Timeout (an expected response never came) and unknown records have no action: they are
-     inexplicable.  End demands that the accept loop and the run thread are not able to move any more
-     (the harness waited 1 s + 4 s + 15 s) and that a signalled run has returned.
+     thread may log a consequence first.  The action of a record may therefore be executed early, before the
+     log reaches it (set E = records executed early; when the log reaches them they are skipped).  Partial-order
+     reduction: early execution is only tried immediately before a record that DEPENDS on it (same FIFO, same
+     flag, dispatch before the handler runs, drop before the client sees the end) - independent records
+     commute, so nothing is lost - and at most MaxEarly records are ahead of the log at any time.
+   * Cli_Timeout (an expected response never came), a truncated response (Cli_Eof with v # 0) and unknown
+     records have no action: they are inexplicable.  End demands that the accept loop and the run thread are
+     not able to move any more (the harness waited 1 s + 4 s + 15 s) and that a signalled run has returned.
 
-   Acceptance: some path consumes the whole file (invariant NotAccepted is VIOLATED = accepted).  When TLC
-   finishes without that, the postcondition prints the furthest record reached and the record that could
-   not be explained.  All invariants of Shutdown are evaluated in every visited state. *)
+   The postcondition prints, per scenario, the furthest record reached (for the diagnosis of the rejected
+   ones).  All invariants of Shutdown are evaluated in every visited state. *)
 EXTENDS Shutdown, Json, IOUtils
 
 Rec == ndJsonDeserialize(IOEnv.TRACE)
 N == Len(Rec)
+NS == Rec[N].sc                  \* scenarios are numbered 1..NS
 
-VARIABLES l, E, got
-tvars == <<vars, l, E, got>>
+VARIABLES l, E, got, sc, last
+tvars == <<vars, l, E, got, sc, last>>
 
-EarlyEvents == {"Accept_Return", "Flag_Read", "Dispatch", "Loop_Exit", "Pool_Stop",
-                "Sig_Recv", "Flag_Set", "Wake_Connect", "Cli_Connect"}
 Window == 40
 MaxEarly == 3
 
-ResetTo(r, n) ==
-  /\ rt' = r /\ nw' = n
-  /\ apc' = "accept" /\ cur' = NONE
-  /\ spc' = IF r = "threaded" THEN "recv" ELSE "join"
-  /\ chan' = FALSE /\ sent' = FALSE /\ flag' = FALSE
-  /\ listener' = "open" /\ backlog' = <<>>
-  /\ queue' = <<>> /\ alive' = n /\ busy' = {} /\ pooldrop' = FALSE
-  /\ cs' = [c \in Conns |-> "none"]
-  /\ inbuf' = [c \in Conns |-> "empty"]
-  /\ kind' = [c \in Conns |-> "close"]
-  /\ wr' = [c \in Conns |-> 0]
-  /\ ceof' = [c \in Conns |-> FALSE]
-  /\ nreq' = [c \in Conns |-> 0]
-  /\ reqB4' = [c \in Conns |-> FALSE]
-  /\ served' = [c \in Conns |-> 0]
-  /\ trunc' = {}
-  /\ got' = [c \in Conns |-> 0]
+\* a executed before b although b is logged first: only worth trying when the two do not commute
+Dep(a, b) ==
+  \/ a.ev \in {"Cli_Connect", "Wake_Connect", "Sig_Recv", "Flag_Set"} /\ b.ev \in {"Accept_Return", "Cli_Connect", "Wake_Connect"}
+  \/ a.ev \in {"Sig_Recv", "Flag_Set"} /\ b.ev = "Flag_Read"
+  \/ a.ev = "Flag_Read" /\ b.ev = "Flag_Set"
+  \/ a.ev = "Dispatch" /\ b.ev = "H_Read"
+  \/ a.ev = "Loop_Exit" /\ b.ev = "Cli_Eof"
 
-TInit ==
-  /\ rt = "threaded" /\ nw = 1 /\ apc = "accept" /\ cur = NONE /\ spc = "recv"
-  /\ chan = FALSE /\ sent = FALSE /\ flag = FALSE /\ listener = "open" /\ backlog = <<>>
-  /\ queue = <<>> /\ alive = 1 /\ busy = {} /\ pooldrop = FALSE
-  /\ cs = [c \in Conns |-> "none"] /\ inbuf = [c \in Conns |-> "empty"] /\ kind = [c \in Conns |-> "close"]
-  /\ wr = [c \in Conns |-> 0] /\ ceof = [c \in Conns |-> FALSE] /\ nreq = [c \in Conns |-> 0]
-  /\ reqB4 = [c \in Conns |-> FALSE] /\ served = [c \in Conns |-> 0] /\ trunc = {}
-  /\ l = 1 /\ E = {} /\ got = [c \in Conns |-> 0]
+InitWith(r, n) ==
+  /\ rt = r /\ nw = n
+  /\ apc = "accept" /\ cur = NONE
+  /\ spc = IF r = "threaded" THEN "recv" ELSE "join"
+  /\ chan = FALSE /\ sent = FALSE /\ flag = FALSE
+  /\ listener = "open" /\ backlog = <<>>
+  /\ queue = <<>> /\ alive = n /\ busy = {} /\ pooldrop = FALSE
+  /\ cs = [c \in Conns |-> "none"]
+  /\ inbuf = [c \in Conns |-> "empty"]
+  /\ kind = [c \in Conns |-> "close"]
+  /\ wr = [c \in Conns |-> 0]
+  /\ ceof = [c \in Conns |-> FALSE]
+  /\ nreq = [c \in Conns |-> 0]
+  /\ reqB4 = [c \in Conns |-> FALSE]
+  /\ served = [c \in Conns |-> 0]
+  /\ trunc = {}
+  /\ got = [c \in Conns |-> 0]
+
+TInit == \E i \in {k \in 1..N : Rec[k].ev = "Reset"} :
+           /\ InitWith(Rec[i].k, Rec[i].v)
+           /\ l = i + 1 /\ E = {} /\ sc = Rec[i].sc /\ last = Rec[i].end
 
 (* ----------------------------------------------------------------- silent steps *)
 G_Take == rt = "threaded" /\ queue # <<>> /\ Idle
@@ -116,37 +123,34 @@ Act(e) ==
   \/ e.ev = "End" /\ ~FairEnabled /\ (sent => spc = "returned") /\ UNCHANGED <<vars, got>>
 
 EarlyOK(j) ==
-  /\ j \notin E /\ Cardinality(E) < MaxEarly
-  /\ Rec[j].ev \in EarlyEvents
-  /\ Rec[j].sc = Rec[l].sc
-  /\ Rec[j].pv < l
+  /\ l \notin E /\ j \notin E /\ Cardinality(E) < MaxEarly
+  /\ Dep(Rec[j], Rec[l])
+  /\ Rec[j].pv < l \/ Rec[j].pv \in E
 
 Consume ==
-  LET e == Rec[l] IN
-  IF e.ev = "Reset"
-    THEN E = {} /\ ResetTo(e.k, e.v) /\ l' = l + 1 /\ E' = E
-    ELSE IF l \in E
-      THEN UNCHANGED <<vars, got>> /\ E' = E \ {l} /\ l' = l + 1
-      ELSE Act(e) /\ l' = l + 1 /\ E' = E
+  IF l \in E
+    THEN UNCHANGED <<vars, got>> /\ E' = E \ {l} /\ l' = l + 1
+    ELSE Act(Rec[l]) /\ l' = l + 1 /\ E' = E
 
 TNext ==
-  IF EagerEnabled
-    THEN EagerStep /\ UNCHANGED <<l, E, got>>
-    ELSE \/ FreeSilent /\ UNCHANGED <<l, E, got>>
-         \/ l <= N /\ Rec[l].ev # "Reset"
-              /\ \E j \in (l + 1)..(IF l + Window < N THEN l + Window ELSE N) :
-                    EarlyOK(j) /\ Act(Rec[j]) /\ E' = E \cup {j} /\ l' = l
-         \/ l <= N /\ Consume
+  /\ l <= last
+  /\ UNCHANGED <<sc, last>>
+  /\ IF EagerEnabled
+       THEN EagerStep /\ UNCHANGED <<l, E, got>>
+       ELSE \/ FreeSilent /\ UNCHANGED <<l, E, got>>
+            \/ \E j \in (l + 1)..(IF l + Window < last THEN l + Window ELSE last) :
+                  EarlyOK(j) /\ Act(Rec[j]) /\ E' = E \cup {j} /\ l' = l
+            \/ Consume
 
 TSpec == TInit /\ [][TNext]_tvars
 
-\* furthest record reached, for the diagnosis
-Track == TLCSet(1, IF l > TLCGet(1) THEN l ELSE TLCGet(1))
-ASSUME TLCSet(1, 0)
+\* furthest record reached per scenario, for the diagnosis
+ASSUME \A i \in 1..NS : TLCSet(100 + i, 0)
+Track == TLCSet(100 + sc, IF l > TLCGet(100 + sc) THEN l ELSE TLCGet(100 + sc))
 
-\* VIOLATED means: the whole log was explained
-NotAccepted == l <= N
+\* an explanation consumed the whole log of scenario sc
+Done == l = last + 1
+Report == Done => PrintT(<<"ACC", sc>>)
 
-Post == LET f == TLCGet(1) IN
-        PrintT(ToJson([rejected_at |-> f, event |-> IF f >= 1 /\ f <= N THEN Rec[f] ELSE Rec[1]])) /\ FALSE
+Post == PrintT(ToJson([far |-> [i \in 1..NS |-> TLCGet(100 + i)]]))
 =============================================================================
